@@ -435,7 +435,7 @@ PROPERTY = {
                     'in the magnitude of every mask parameter in both cost modes, open masks = original sizes, cost reads no weights (the probing cost '
                     'specifications of contracts/wrappers.py receive only hyper-parameters), pass-through backward bodies of every straight-through function',
         not_decided=['every clause about .grad (finite, non-zero for trainable elements, none to weights): autograd is trusted, only the hand-written backward '
-                     'bodies are under contract', 'ODiMO parallel-accelerator reduction', 'GateSTE / PACTActSTE backward (not pass-through by design)'],
+                     'bodies are under contract', 'ODiMO parallel-accelerator reduction', 'GateSTE / PACTActSTE backward (not pass-through by design)', 'continuous-mode monotonicity of the effective kernel size for kernel sizes above 7 (bilinear in 13+ parameters: the solvers time out; discrete mode goes up to 9)'],
         assumptions=[],
     ),
 }
@@ -492,7 +492,7 @@ HARNESSES = [
          quick=[dict(k=k, dil0=d, cout=3) for k in range(1, 17) for d in (1, 2)], thorough=[dict(k=k, dil0=d, cout=3) for k in range(1, 33) for d in (1, 2, 3)]),
     dict(name='conv1d-cost-monotone', fn='h_conv1d_cost_monotone', property=['C12'],
          functions=[_P + 'conv1d.py::PITConv1d.get_modified_vars', _P + 'conv1d.py::PITConv1d.out_features_eff', _P + 'conv1d.py::PITConv1d.k_eff'],
-         quick=[dict(k=k, cout=2, discrete=d) for k in (1, 2, 3, 4, 5, 6) for d in _B], thorough=[dict(k=k, cout=3, discrete=d) for k in range(1, 10) for d in _B], timeout=60),
+         quick=[dict(k=k, cout=2, discrete=d) for k in (1, 2, 3, 4, 5, 6) for d in _B], thorough=[dict(k=k, cout=3, discrete=d) for k in range(1, 8) for d in _B] + [dict(k=k, cout=3, discrete=True) for k in (8, 9)], timeout=120),
     dict(name='conv2d-linear-cost-vars', fn='h_conv2d_linear_cost_vars', property=['C04', 'C12'],
          functions=[_P + 'conv2d.py::PITConv2d.get_modified_vars', _P + 'conv2d.py::PITConv2d.out_features_eff', _P + 'linear.py::PITLinear.get_modified_vars',
                     _P + 'linear.py::PITLinear.out_features_eff'],
